@@ -38,6 +38,18 @@ type c14File struct {
 type c14Req struct {
 	Text  string             `json:"text"`
 	Files map[string]c14File `json:"files"`
+	// Fuse > 0: the opener refuses every request after the first Fuse (a runaway loader then ends
+	// with an error instead of killing the worker) and the answer lists the names it was asked for
+	Fuse int `json:"fuse,omitempty"`
+	// Stack > 0: stack limit of the worker in MB for this request (default 48)
+	Stack int `json:"stack,omitempty"`
+}
+
+func b64(s string) string { return base64.StdEncoding.EncodeToString([]byte(s)) }
+
+func c14Line(req c14Req) string {
+	b, _ := json.Marshal(req)
+	return base64.StdEncoding.EncodeToString(b)
 }
 
 type c14errReader struct{}
@@ -73,7 +85,18 @@ func c14Worker(line string) (resp string) {
 	if err != nil {
 		return "badrequest"
 	}
+	if req.Stack > 0 {
+		debug.SetMaxStack(req.Stack << 20)
+	}
+	var opens []string
+	if req.Fuse > 0 {
+		defer func() { resp += " opens=" + strings.Join(opens, ",") }()
+	}
 	opener := source.Opener(func(name, ext string) (io.Reader, error) {
+		opens = append(opens, name)
+		if req.Fuse > 0 && len(opens) > req.Fuse {
+			return nil, errors.New("opener fuse: too many requests")
+		}
 		f, ok := req.Files[name]
 		if !ok || f.Kind == "missing" {
 			return nil, nil
@@ -315,12 +338,11 @@ type c14Runner struct {
 }
 
 func (rn *c14Runner) run(text string, files map[string]c14File) string {
-	req := c14Req{Text: base64.StdEncoding.EncodeToString([]byte(text)), Files: map[string]c14File{}}
+	req := c14Req{Text: b64(text), Files: map[string]c14File{}}
 	for k, f := range files {
-		req.Files[k] = c14File{Kind: f.Kind, Text: base64.StdEncoding.EncodeToString([]byte(f.Text))}
+		req.Files[k] = c14File{Kind: f.Kind, Text: b64(f.Text)}
 	}
-	b, _ := json.Marshal(req)
-	line := base64.StdEncoding.EncodeToString(b)
+	line := c14Line(req)
 	resp, status := rn.w.Call(line, 2*time.Second)
 	if status == "timeout" {
 		// a loaded machine can make an innocent load miss the limit: a time-out counts only when it
@@ -689,11 +711,16 @@ func c14Directed(rn *c14Runner, r *gen.Rng) {
 		{"leafref to itself", c14Hdr + "leaf l { type leafref { path \"/l\"; } } }"},
 		{"leafref a<->b", c14Hdr + "leaf a { type leafref { path \"/b\"; } } leaf b { type leafref { path \"/a\"; } } }"},
 		{"augment into itself", c14Hdr + "container c { } augment /c { container c { } } augment /c/c { leaf x { type string; } } }"},
+		{"grouping cycle below the augment of a uses", c14Hdr + "grouping g { container k { leaf l { type string; } } } grouping h { leaf m { type string; } uses g { augment k { container z { uses h; } } } } container c { uses h; } }"},
+		{"grouping using itself with an augment", c14Hdr + "grouping g { leaf l { type string; } container k { uses g { augment k { leaf q { type string; } } } } } container c { uses g; } }"},
+		{"grouping using itself with a refine", c14Hdr + "grouping g { leaf l { type string; } container k { uses g { refine l { description \"d\"; } } } } container c { uses g; } }"},
+		{"grouping cycle through an action, used with an augment into the action", c14Hdr + "grouping g { leaf l { type string; } action a { input { container k { uses g; } } } } container c { uses g { augment a/input/k { leaf q { type string; } } } } }"},
 	} {
 		rn.add("cycle", c.text, nil, true, c.note)
 	}
-	rn.add("uses-cycle", c14Hdr+"grouping g { uses h; } grouping h { uses g; } uses g; }", nil, true, "grouping g uses h, h uses g, no data nodes (known finding 2)")
+	// (quick tier: one structured case of this kind in the grouping-graph stream, c14graph.go)
 	if rn.ctx.Thorough() {
+		rn.add("uses-cycle", c14Hdr+"grouping g { uses h; } grouping h { uses g; } uses g; }", nil, true, "grouping g uses h, h uses g, no data nodes (known finding 2)")
 		rn.add("uses-cycle", c14Hdr+"grouping g { uses g; } uses g; }", nil, true, "grouping g uses g, no data nodes (known finding 2)")
 	}
 	// deviations that do not fit their target (known finding 1)
@@ -745,6 +772,11 @@ func c14Opener(rn *c14Runner, r *gen.Rng) {
 		{"submodules include each other", map[string]c14File{"s": txt("submodule s { belongs-to a { prefix a; } include t; leaf x { type string; } }"),
 			"t": txt("submodule t { belongs-to a { prefix a; } include s; leaf y { type string; } }")}, "module a { namespace \"a\"; prefix a; include s; include t; }"},
 		{"same submodule included twice", map[string]c14File{"s": txt(s)}, "module a { namespace \"a\"; prefix a; include s; include s; uses g; }"},
+		{"submodule includes itself with a revision-date", map[string]c14File{"s": txt("submodule s { belongs-to a { prefix a; } include s { revision-date 2001-01-01; } revision 2020-01-01; }")}, "module a { namespace \"a\"; prefix a; include s { revision-date 2001-01-01; } }"},
+		{"submodules include each other with revision-dates", map[string]c14File{"s": txt("submodule s { belongs-to a { prefix a; } include t { revision-date 2019-01-01; } revision 2020-01-01; revision 2019-01-01; leaf x { type string; } }"),
+			"t": txt("submodule t { belongs-to a { prefix a; } include s { revision-date 2019-01-01; } revision 2020-01-01; revision 2019-01-01; leaf y { type string; } }")}, "module a { namespace \"a\"; prefix a; include s { revision-date 2019-01-01; } }"},
+		{"self import with a revision-date, import by a submodule", map[string]c14File{"a": txt("module a { namespace \"a\"; prefix a; include s; }"),
+			"s": txt("submodule s { belongs-to a { prefix a; } import a { prefix q; revision-date 2001-01-01; } }")}, "module a { namespace \"a\"; prefix a; include s; }"},
 		{"import without prefix", map[string]c14File{"b": txt(b)}, "module a { namespace \"a\"; prefix a; import b; }"},
 		{"imported typedef cycle across modules", map[string]c14File{"b": txt("module b { namespace \"b\"; prefix b; import a { prefix a; } typedef t { type a:u; } }"),
 			"a": txt("module a { namespace \"a\"; prefix a; import b { prefix b; } typedef u { type b:t; } leaf l { type u; } }")},
@@ -791,7 +823,7 @@ func c14Random(rn *c14Runner, r *gen.Rng, n int) {
 
 // C14: loading any text terminates with a module or an error.
 func C14(ctx *core.Ctx) error {
-	ctx.Imports = "YLex.Keywords YLex.Model Check.C14Check"
+	ctx.Imports = "YLex.Keywords YLex.Model Load.Model Check.C14Check"
 	ctx.Rule = "one load of one text (with an in-memory opener) in a worker sub-process, 2 s limit, followed by a walk of the module through the public accessors; non-trivial when the load did not simply succeed or the text is longer than 40 bytes"
 	ctx.ShardMax = 150000
 	r := gen.New(ctx.Seed)
@@ -808,6 +840,9 @@ func C14(ctx *core.Ctx) error {
 	}
 	c14Mutations(rn, r.Fork(5), corpus, n)
 	c14Random(rn, r.Fork(6), ctx.Scale(200, 2000))
+	c14ImportGraphs(rn, r.Fork(7))
+	c14GroupingGraphs(rn, r.Fork(8))
+	c14ModKinds(rn, r.Fork(9))
 	ctx.Extra["worker_restarts"] = rn.w.Restarts
 	return nil
 }
